@@ -41,9 +41,10 @@ TAGS = {
     15: 'a == b but hash(a) != hash(b)', 16: 'returned model: parameter init outside bounds',
     17: 'returned model: duplicate parameter / random variable names', 18: 'returned model: statement uses an undefined symbol',
     19: 'returned model: code cannot be produced', 21: 'an argument was modified by the call',
+    23: 'an object of an Immutable class returned by the API is not hashable (a field was replaced after construction)',
     22: 'code generation (update_source) modified the model it was called on',
 }
-ORACLE_TAGS = {11, 12, 13, 14, 15, 16, 17, 18, 19, 21, 22}
+ORACLE_TAGS = {11, 12, 13, 14, 15, 16, 17, 18, 19, 21, 22, 23}
 CORR_TAGS = {1, 2, 3, 4, 5, 6, 9}
 
 # functions whose effect program the checker rejects because the CODE writes into model.dataset  -> finding id
@@ -53,19 +54,19 @@ EFFECT_FINDINGS = {}
 # functions the checker cannot accept because of the coarseness of the ANALYSIS (reviewed by hand; the theorem says
 # nothing about them, the behavioural oracle still watches them).  Value: the write sites (function, description) that
 # may be reported for them — any other site makes the function count as newly flagged.
+# (empty since the analysis separates a value from what its `.dataset` denotes and takes a constructed instance to be
+# what __init__ stored into it: add_time_after_dose, get_concentration_parameters_from_data and check_dataset are accepted)
 INCONCLUSIVE = {
-    ('pharmpy.modeling.data', 'add_time_after_dose'): {
-        'why': "writes into `temp.dataset` of a model it created itself two lines earlier (every `.dataset` is "
-               "treated as the input dataset)",
-        'sites': {('add_time_after_dose', "store into df['_DOSEID']"), ('add_time_after_dose', "store into df['_POS']")}},
-    ('pharmpy.modeling.data', 'get_concentration_parameters_from_data'): {
-        'why': 'calls add_time_after_dose',
-        'sites': {('add_time_after_dose', "store into df['_DOSEID']"), ('add_time_after_dose', "store into df['_POS']")}},
-    ('pharmpy.modeling.data', 'check_dataset'): {
-        'why': 'the Checker instance holds the dataset and mutates its own result dict / list (field-insensitive)',
-        'sites': {('Checker.set_result', '.append(...) mutates the receiver'), ('Checker.__init__', 'store into self.dataset'),
-                  ('Checker.get_dataframe', '.append(...) mutates the receiver'),
-                  ('Checker.print', 'store into self.check_results[code]'), ('Checker.print', 'unknown method .add_row(...)')}},
+    # tools layer (roots added with the tools / workflow extension)
+    ('pharmpy.tools.amd.run', 'run_amd'): {
+        'why': 'out of scope of the static obligation: runs external estimation tools; its first argument may BE the dataset '
+               '(DataFrame input) and the tool-metadata dict that holds it is updated in place',
+        'sites': {('_update_metadata', "store into tool_metadata['stats']['end_time']"),
+                  ('run_tool_with_name', 'unknown method .store_metadata(...)')}},
+    ('pharmpy.tools.funcs.summarize_individuals', 'summarize_individuals_count_table'): {
+        'why': 'sets `.index` of a Series sliced out of its DataFrame argument (an attribute store on the slice object, '
+               'not a data write into the argument; no Model involved)',
+        'sites': {('summarize_individuals_count_table', 'store into parents.index')}},
 }
 # returned-model defects that are listed: (function, oracle tag) -> finding id
 RETURNED_FINDINGS = {('drop_columns', 18): 'C06-DROP-COLUMNS-UNDEFINED'}
@@ -171,6 +172,8 @@ Eval vm_compute in ([if consistent iters effect_programs summaries then 1%nat el
     public = {i: n for n, i in meta['public']}
     for i in meta['codegen']:
         public.setdefault(i, 'nonmem.update.' + F_[i]['qualname'])     # roots = public functions + code generation helpers
+    for i in meta.get('tools', []):
+        public.setdefault(i, F_[i]['module'].replace('pharmpy.', '') + '.' + F_[i]['qualname'])   # + tools / workflow helpers
     flagged = {}
     for i, r in enumerate(rows):
         if r:
@@ -185,7 +188,7 @@ Eval vm_compute in ([if consistent iters effect_programs summaries then 1%nat el
     for i, recs in sorted(flagged.items()):
         key = (F_[i]['module'], F_[i]['qualname'])
         sites = {site(k) for (_, _, k) in recs}
-        input_sites = {site(k) for (c, o, k) in recs if o == 0}
+        input_sites = {site(k) for (c, o, k) in recs if o % 2 == 0}
         if key in EFFECT_FINDINGS and sites <= EFFECT_FINDINGS[key][1]:
             known_fn[key] = sorted(input_sites)
             if i in public:
@@ -199,7 +202,9 @@ Eval vm_compute in ([if consistent iters effect_programs summaries then 1%nat el
             continue
         newly.append({'function': public[i], 'id': i, 'module': key[0],
                       'sites': [{'function': W[k]['function'], 'module': W[k]['module'], 'line': W[k]['line'],
-                                 'what': W[k]['what'], 'class': c, 'origin': 'input dataset' if o == 0 else f'parameter {o - 1}'}
+                                 'what': W[k]['what'], 'class': c,
+                                 'origin': ('input dataset (untracked owner)' if o == 0 else
+                                            f'dataset of argument {(o - 2) // 2}' if o % 2 == 0 else f'argument {(o - 1) // 2}')}
                                 for (c, o, k) in recs]})
         exempt.append(i)
     # findings whose function is no longer flagged
@@ -211,16 +216,15 @@ Eval vm_compute in ([if consistent iters effect_programs summaries then 1%nat el
     (gendir / 'Obligation.v').write_text(f'''(* GENERATED: obligations over the regenerated effect IR *)
 From Coq Require Import List Bool Arith NArith Lia.
 From PV Require Import C06.Model C06.Proofs C06.Properties.
-From C06Gen Require Import Effects.
+From C06Gen Require Import Effects Report.
 Import ListNotations.
-Definition iters := 8%nat.
-Definition summaries : list summary := Eval vm_compute in solve iters effect_programs 80 (bottom effect_programs).
+(* iters and summaries (the solved table, a closed normal form) come from Report.v *)
 Lemma summaries_consistent : consistent iters effect_programs summaries = true.
 Proof. vm_compute. reflexivity. Qed.
 (* public functions of pharmpy.modeling the checker does not accept: open findings + analysis-inconclusive ones *)
 Definition exempt : list N := {c06_effects.vl(exempt)}%N.
 Definition checked_public : list N :=
-  filter (fun f => negb (existsb (N.eqb f) exempt)) (public_functions ++ codegen_functions).
+  filter (fun f => negb (existsb (N.eqb f) exempt)) (public_functions ++ codegen_functions ++ tools_functions).
 Lemma all_public_functions_ok :
   forallb (fun f => fn_clean (nth (N.to_nat f) summaries dsum)) checked_public = true.
 Proof. vm_compute. reflexivity. Qed.
@@ -234,19 +238,20 @@ Theorem public_functions_preserve_input :
     In f checked_public ->
     forall (n : nat) (s : state frame) (b : bool) (s' : state frame),
       entry frame (arity (nth (N.to_nat f) effect_programs dfdef)) s ->
-      (forall i, ~ In 0%nat (st s (vparam i))) -> (0 < nx s)%nat ->
+      (forall i, In 0%nat (st s (vparam i)) -> Nat.odd i = true) -> (0 < nx s)%nat ->
       exec frame mutate dflt (fun g => nth (N.to_nat g) effect_programs dfdef) n
            (body (nth (N.to_nat f) effect_programs dfdef)) s b s' ->
       hp s' 0%nat = hp s 0%nat.
 Proof.
   intros frame mutate dflt f Hf n s b s' HE HP Hn EX.
   pose proof all_public_functions_ok as HA. rewrite forallb_forall in HA. specialize (HA f Hf).
-  unfold fn_clean in HA. apply andb_true_iff in HA. destruct HA as [HI _].
-  exact (input_dataset_preserved frame mutate dflt iters effect_programs summaries summaries_consistent
-           f n s b s' HI HE HP Hn EX).
+  unfold fn_clean in HA. apply andb_true_iff in HA. destruct HA as [HA _].
+  apply andb_true_iff in HA. destruct HA as [HI HD].
+  exact (argument_datasets_preserved frame mutate dflt iters effect_programs summaries summaries_consistent
+           f n s b s' HI HD HE HP Hn EX).
 Qed.
 Print Assumptions public_functions_preserve_input.
-Eval vm_compute in [[length checked_public; length exempt; length public_functions; length codegen_functions]].
+Eval vm_compute in [[length checked_public; length exempt; length public_functions; length codegen_functions; length tools_functions]].
 ''')
     rc, out = coqc_gen(gendir / 'Obligation.v', gendir)
     ctx.obligations += 4
@@ -266,7 +271,8 @@ Eval vm_compute in [[length checked_public; length exempt; length public_functio
     except OSError:
         pass
     cov.update({
-        'functions_translated': nfun, 'public_entries': len(pub_ids), 'codegen_helpers': len(meta['codegen']), 'write_sites': len(W),
+        'functions_translated': nfun, 'public_entries': len(pub_ids), 'codegen_helpers': len(meta['codegen']),
+        'tools_workflow_roots': len(meta.get('tools', [])), 'not_translated': meta.get('soft_refused', []), 'write_sites': len(W),
         'flagged_public': len([i for i in flagged if i in public]),
         'open_finding_functions': sorted(k[1] for k in known_fn), 'analysis_inconclusive': inconclusive,
         'newly_flagged': newly, 'trusted_core_callees': len(meta['trusted_core']), 'source_sha': meta['sha'],
@@ -310,6 +316,39 @@ def class_term(tab, names):
     def tl(ts):
         return ct.lst([f"({names.p(f)}, {h}%nat)" for f, h in ts])
     return f"(mkclass {tl(tab['eq'])} {tl(tab['hash'])})"
+
+
+# stores into an existing instance of an Immutable class that are listed as findings: site text -> finding id
+STORE_FINDINGS = {'Statements.direct_dependencies': 'C06-DIRECT-DEPENDENCIES-NOT-A-VALUE'}
+
+
+def immutable_part(ctx, extra_sources=None):
+    """regenerated obligation: no store into an instance of an Immutable model class after its construction"""
+    sites, classes = c06_eqhash.store_sites(REPO / 'src', extra_sources)
+    kinds = {'init': 'SInit', 'cache': 'SCache', 'singleton': 'SSingleton', 'other': 'SOther'}
+    ctx.obligations += 1
+    res = ctx.run_cases('store-sites', IMPORTS, 'skind', [kinds[s_['kind']] for s_ in sites],
+                        '(fun k => if skind_allowed k then [] else [1%nat])', shard=400)
+    cov = ctx.coverage.setdefault('immutability', {})
+    cov['classes'] = len(classes)
+    cov['store_sites'] = len(sites)
+    bad = []
+    for s_, r in zip(sites, res):
+        if r:
+            fid = next((f for key, f in STORE_FINDINGS.items() if f':{key}:' in s_['site']), None)
+            if fid and ctx.open_finding(fid):
+                cov.setdefault('listed_sites', []).append(s_['site'])
+            else:
+                bad.append(s_['site'])
+    if bad:
+        ctx.broken.append('an instance of an Immutable class is modified after construction (immutability obligation fails): '
+                          + '; '.join(bad))
+    else:
+        ctx.discharged += 1
+    for key, fid in STORE_FINDINGS.items():
+        if ctx.open_finding(fid) and not any(f':{key}:' in s_['site'] and s_['kind'] == 'other' for s_ in sites):
+            ctx.notes.append(f'finding_not_reproduced {fid}: no store after construction in {key} any more')
+    return sites
 
 
 def eqhash_part(ctx, tabs):
@@ -789,6 +828,20 @@ def finding_witness_case(f, tabs, B, fns):
         def probe():
             return inplace_probe(w)
         return 'python', probe
+    if kind == 'unhashable_result':
+        def probe():
+            import pharmpy.modeling as pm
+            m = pm.load_example_model(w.get('model', 'pheno'))
+            obj = m
+            for attr in w['path']:
+                obj = getattr(obj, attr)
+            r = getattr(obj, w['method'])(m.statements[w['statement']])
+            try:
+                hash(r)
+                return [], []
+            except TypeError as e:
+                return [23], [f'{type(r).__name__}._statements is a {type(r._statements).__name__}: {e}']
+        return 'python', probe
     if kind == 'returned':
         import pharmpy.modeling as pm
         from harness.props import c06_oracle as oc
@@ -983,11 +1036,11 @@ def oracle_part(ctx, eff):
         chunks = [with_ex[i::nchunk] for i in range(nchunk)]
         if ctx.tier == 'quick':
             rv = ['foabs+periph']
-            for kind in oc.DEGENERATE:
+            for kind in ['constant', 'median_min', 'median_max', 'binary_major0', 'negative']:
                 jobs.append({'mode': 'covariates', 'names': [], 'kinds': [kind], 'seed': ctx.seed})
             for c in chunks:
                 jobs.append({'mode': 'doctest+replay', 'names': c, 'replay_variants': rv, 'seed': ctx.seed,
-                             'vary': True, 'vary_limit': 25, 'hash_history': True, 'hash_limit': None})
+                             'vary': True, 'vary_limit': 12, 'hash_history': True, 'hash_limit': 14})
             jobs.append({'mode': 'factory', 'names': names, 'variant': 'base', 'seed': ctx.seed})
             jobs.append({'mode': 'factory', 'names': names, 'variant': 'nmtran_date', 'seed': ctx.seed})
             jobs.append({'mode': 'factory', 'names': names, 'variant': 'generic', 'seed': ctx.seed})
@@ -1131,6 +1184,7 @@ def run(ctx):
     ctx.log('eq/hash tables')
     eqhash_part(ctx, tabs)
     cache_part(ctx)
+    immutable_part(ctx)
     ctx.log('constructor correspondence')
     kept, verdicts, infos = wf_part(ctx, tabs, B, fns)
     ctx.log('behavioural oracle')
